@@ -8,11 +8,11 @@ ASSUMPTIONS = [
 
 def run(ck):
     ck.coq()
-    if not ck.build_harness():
+    if not ck.build_harness("session"):
         return
     extra = ["-replay", ck.replay] if ck.replay else []
     path, _ = ck.harness("c18", extra=extra)
-    lines = ck.model("c18", path)
+    lines = ck.model("session", "c18", path)
     ex = open(path).read().splitlines()
     hist = {}
     for l in ex:
